@@ -13,6 +13,9 @@ PROP = {
         job("realtime", "core", "./internal/integration_tests/", "integration_tests",
             [KIT, "harness/core/internal/integration_tests/c02_masq_test.go"], "^TestVerifC02(Repeat|Overlap)$",
             ["c02-repeat", "c02-overlap"], race=False, timeout_quick=600, timeout_thorough=1800),
+        job("held", "core", "./internal/integration_tests/", "integration_tests",
+            [KIT, "harness/core/internal/integration_tests/c02_masq_test.go"], "^TestVerifC02Held$",
+            ["c02-held"], race=False, timeout_quick=600, timeout_thorough=1800),
         job("masq", "core", "./internal/integration_tests/", "integration_tests",
             [KIT, "harness/core/internal/integration_tests/c02_masq_test.go"], "^TestVerifC02(Matrix|Scripts)$",
             ["c02-matrix", "c02-scripts"], race=False, timeout_quick=600, timeout_thorough=1800),
@@ -61,6 +64,20 @@ PROP = {
              "treatment, the differential oracle decides (a connection closed under a masquerade client shows as "
              "server:masq-no-response). A frozen bubble (no request completes for 150 s real time: some goroutine waits "
              "non-durably, e.g. on a server mutex) is reported inconclusive with the goroutine dump, never as a verdict. "
+             "Part c02-held (bubble, own job): a POST hysteria/auth is HELD in the authenticator fake for 30 ms..7 s virtual; while it is "
+             "held the client opens 1..2 0x401+TCPRequest streams and sends a UDPMessage datagram on the same connection (variant: "
+             "streams/datagram before the auth request); then the decision is released. Rejected credentials: until 6.5 s after "
+             "the release no TCPResponse on those streams (differential with the reference twin), no datagram, no outbound "
+             "TCP/UDP/CheckUDP call, UDP write or TCP/UDP request event for their unique addresses "
+             "(server:outbound-for-unauthenticated-connection), and the rejected auth is answered like the reference's twin. "
+             "Accepted credentials: streams sent for variety only, not judged (C01's subject). "
+             "The custom web application also: sends 1xx informational responses before the final status (103 Early Hints with "
+             "Link, 102, several 1xx, 103 followed by an implicit 200), calls WriteHeader twice, flushes before WriteHeader, "
+             "writes a body without WriteHeader/Content-Type, sets then deletes headers and suppresses Date, sends trailers "
+             "(declared and TrailerPrefix), and reports which optional interfaces its ResponseWriter offers; the client records "
+             "the 1xx sequence (httptrace) and trailers, and both are compared with the reference's "
+             "(server:masq-informational-differs, server:masq-trailer-differs). c02-matrix additionally runs EVERY handler mode "
+             "once as an ordinary request, as a rejected POST hysteria/auth and as a near-miss, before and after an accepted auth. "
              "evaluation = one request / stream / datagram action; non-trivial = a "
              "compared request; distinct = distinct (handler, authenticated?, method, host, path, header set, mode, body)."),
     "assumptions": [
@@ -71,5 +88,6 @@ PROP = {
         "absence of datagrams / stray authenticator calls is observed until virtual quiescence plus 1 s virtual settle",
         "case variants of the host and 'hysteria:443', and POST hysteria/auth with a query string, are not generated (debatable)",
         "equality of the Date header value is not demanded (compared, mismatch only counted)",
+        "held part: an accepted auth request carries Hysteria-CC-RX 0 so that Brutal (which panics on the negative monotime of a bubble) is never installed",
     ],
 }
